@@ -29,3 +29,9 @@ add('C05','model_checking','exhaustive enumeration of trees x versions x keys x 
 add('C07','fault_enumeration','crash-point enumeration: every subset of per-substore commit batches x every commit history (BFS) on the real rootmulti.Store over a recording DB',
  'For every committed state of every history up to the depth, the last commit is interrupted after every possible set of database writes; each crash state is reopened and must equal the last committed block, re-execution must reproduce the uninterrupted hash, and the following block must agree.',
  'Atomic batches, no write reordering by the DB, MemDB-backed recording DB; store level (the app-level 7-substore commit is exercised by the chain checks).')
+add('C41','model_checking','exhaustive enumeration of operand pairs over boundary alphabets vs big.Int/big.Rat reference arithmetic',
+ 'All pairs of valid coin sets over 3 denominations and a boundary amount alphabet, all pairs of 66 boundary integers and 41 decimals: every Add/Sub/SafeSub/compare/Mul/Quo/rounding result compared with exact arithmetic; overflow must fail, negatives must be reported, operands must not be mutated.',
+ 'Finite alphabets chosen at bit-length and rounding boundaries; Quo accepts the documented 36-digit intermediate.')
+add('C39','model_checking','exhaustive enumeration of single-byte signature/message mutations, key substitutions and multisig arrangements on the real verification code',
+ 'For fixed deterministic keys of both types and several messages: all 64x255 signature substitutions, message substitutions, other keys/messages must fail and the genuine one must verify; every multisig member list of 0..3 keys x every arrangement of signatures; all key encodings round-trip.',
+ 'Forgery resistance beyond the enumerated mutations is a cryptographic assumption (stated in DESIGN §5).')
